@@ -3,6 +3,8 @@ Core-only so that it links as a `lean_exe`. -/
 import OsmoVerif.Model.DrvNum
 import OsmoVerif.Model.DrvMath
 import OsmoVerif.Model.DrvMint
+import OsmoVerif.Model.DrvPoolManager
+import OsmoVerif.Model.DrvGammG
 import OsmoVerif.Model.DrvDet
 import OsmoVerif.Model.DrvSuperfluid
 import OsmoVerif.Model.DrvGamm4
@@ -24,6 +26,8 @@ open OsmoVerif
 
 structure St where
   mint : Mint.DrvState := Mint.initMint
+  pm : Router.PMState := Router.initPM
+  gammg : Gamm.GState := Gamm.initGammG
   superfluid : Superfluid.DrvState := Superfluid.initSuperfluid
   incentives : Incentives.State := Incentives.initIncentives
   router : Router.FeeCfg := Router.initRouter
@@ -57,6 +61,8 @@ def step (st : St) (line : String) : St × String :=
   | "gammmath" :: op :: args => (st, GammMath.stepGammMath op args)
   | "superfluid" :: op :: args => let (x, o) := Superfluid.stepSuperfluid st.superfluid op args; ({ st with superfluid := x }, o)
   | "det" :: op :: args => (st, Det.stepDet op args)
+  | "pm" :: op :: args => let (x, o) := Router.stepPM st.pm op args; ({ st with pm := x }, o)
+  | "gammg" :: op :: args => let (x, o) := Gamm.stepGammG st.gammg op args; ({ st with gammg := x }, o)
   | "mint" :: op :: args => let (m, o) := Mint.stepMint st.mint op args; ({ st with mint := m }, o)
   | _ => (st, "bad-op")
 
